@@ -891,11 +891,11 @@ def lattice_axes(quick):
                    + ['mixed:complex128/float64', 'mixed:complex128/float32', 'mixed:complex128/int8', 'mixed:float64/int64',
                       'mixed:float64/complex128', 'mixed:float32/complex128', 'mixed:int64/float64', 'mixed:complex64/complex128'])
     # G in [0, 40] dB: both limits exactly, one ulp inside, as int / float / numpy scalar / 0-d array; non-integer values
-    ax['G'] = [0, 20, 40, 0.0, 3.0, 40.0, 5e-324, float(np.nextafter(40.0, 0.0)), 2.5, 17.3,
+    ax['G'] = [0, 20, 40, 0.0, 3.0, 40.0, 2.5, 17.3, 5e-324, float(np.nextafter(40.0, 0.0)),
                ('np.int64', 0), ('np.int64', 40), ('np.int32', 3), ('np.float64', 0.0), ('np.float64', 40.0),
                ('np.float32', 0), ('np.float32', 3), ('np.float32', 40), ('np.float16', 20), ('0d', 0), ('0d', 3.0), ('0d', 40)]
     # NF in [3, 10] dB likewise (the base value 3 is the lower limit as an int)
-    ax['NF'] = [5, 10, 3.0, 10.0, float(np.nextafter(3.0, 4.0)), float(np.nextafter(10.0, 0.0)), 4.77,
+    ax['NF'] = [5, 10, 3.0, 10.0, 4.77, float(np.nextafter(3.0, 4.0)), float(np.nextafter(10.0, 0.0)),
                 ('np.int64', 3), ('np.int64', 10), ('np.float64', 3.0), ('np.float64', 10.0), ('np.float32', 3), ('np.float32', 10),
                 ('np.float16', 10), ('0d', 3), ('0d', 10.0)]
     # every documented way to configure the grid, integer and non-integer fs / R, other wavelengths, N set
@@ -1037,6 +1037,6 @@ def run(ctx):
     fN = [1, 2, 3, 4] if ctx.quick else [1, 2, 3, 4, 5, 8, 16]
     fin = [('1pol', 'absent'), ('1pol', 'complex'), ('2pol', 'complex')] + ([] if ctx.quick else [('2pol', 'absent'), ('2pol-empty-y', 'complex')])
     fG = [(3, 3), (40, 10)] if ctx.quick else [(3, 3), (20, 5), (40, 10), (1, 10.0)]
-    for rs, N, (lay, nk), (G, NF), (wl, fs) in itertools.product(conf_seeds[:1] if ctx.quick else conf_seeds[:2], fN, fin, fG, gvs[:1] if ctx.quick else gvs[:2]):
+    for rs, N, (lay, nk), (G, NF), (wl, fs) in itertools.product(conf_seeds[:1] if ctx.quick else conf_seeds[:2], fN, fin, fG, gvs[:1]):
         fcases.append((N, -(-confN // N), lay, nk, G, NF, wl, fs, seed, (seed * 1000003 + 77 + rs) % (2 ** 32)))
     ctx.pmap('fluct', case_fluct, fcases, horizon=120)
